@@ -147,6 +147,12 @@ class _Ctx(object):
         return data[2:-1]
 
     def finalize(self):
+        m = self.c.mode
+        if not self.enc and m is not None and m.name == "GCM":
+            # authenticated decryption: the tag handed to the mode must be the tag of this cipher text
+            tag = m.args[1] if len(m.args) > 1 else m.kwargs.get("tag")
+            if tag is None or tag != (b"T" * 16)[:len(tag)] or len(tag) < 4:
+                raise ce_mod.errors.InvalidTag()
         return b""
 
 
@@ -264,7 +270,8 @@ def install():
                                                          ANSIX923=_mk_padding("ANSIX923", _x923_pad))
 
         def _pss(mgf=None, salt_length=None):
-            return _AsymPad("PSS")
+            # the mask generation function's hash is part of what PSS computes
+            return _AsymPad("PSS/mgf1-%s" % (mgf[1].name if mgf else "none"))
         ce_mod.asymmetric_padding = types.SimpleNamespace(
             PKCS1v15=lambda: _AsymPad("PKCS1v15"), PSS=_pss, OAEP=lambda **k: _AsymPad("OAEP"),
             MGF1=lambda algorithm=None: ("MGF1", algorithm))
@@ -467,7 +474,7 @@ def decrypt_garbage(alg_i):
     alg, alg_name = SYM[alg_i]
     sizes = KEY_SIZES[alg_name]
 
-    def h(mode_i: int, pad_i: int, data: bytes, wrap_ok: bool, iv_short: bool) -> bool:
+    def h(mode_i: int, pad_i: int, data: bytes, wrap_ok: bool, iv_short: bool, tag_ok: bool) -> bool:
         """
         post: _
         """
@@ -483,12 +490,21 @@ def decrypt_garbage(alg_i):
         iv = bytes(blk - 1 if iv_short else blk)
         ct = (b"E[" + data + b"]") if wrap_ok else data
         e = install()
+        tag = (b"T" * 16 if tag_ok else b"X" * 16) if mode == BM.GCM else None
         try:
-            e.decrypt(alg, key, ct, cipher_mode=mode, padding_method=pad, iv_nonce=iv,
-                      auth_tag=b"T" * 16 if mode == BM.GCM else None)
+            e.decrypt(alg, key, ct, cipher_mode=mode, padding_method=pad, iv_nonce=iv, auth_tag=tag)
         except kex.KmipError:
-            pass
+            reach()
+            return True
         reach()
+        # accepted: only a cipher text of this (fake) cipher, with the right tag in GCM mode, may decrypt
+        is_ct = wrap_ok or (len(ct) >= 3 and ct[:2] == b"E[" and ct[-1:] == b"]")
+        if alg == A.RC4:
+            return is_ct
+        if not is_ct:
+            return False
+        if mode == BM.GCM and not tag_ok:
+            return False
         return True
     return h
 
@@ -599,7 +615,7 @@ def sign_verify():
         reach()
         if not exp_ok:
             return False
-        pname = "PKCS1v15" if pad == PM.PKCS1v15 else "PSS"
+        pname = "PKCS1v15" if pad == PM.PKCS1v15 else "PSS/mgf1-" + exp_hash
         if sig != b"SIG|" + pname.encode() + b"|" + exp_hash.encode() + b"|DERKEY|" + data:
             return False
         # and verification of that signature with the same parameters accepts, with a different hash refuses
